@@ -66,7 +66,16 @@ def m_tzical_clone(payload):
     return False
 
 
-MATCHERS = {"m_cache_clear_identity": m_cache_clear_identity, "m_tzical_clone": m_tzical_clone}
+def m_nocache_tzstr_not_fresh(payload):
+    """F-C18-d: gettz.nocache(name) for a name that resolves through tzstr(name) returns the tzstr factory's
+    cached object, not a fresh one -- and nothing else."""
+    i = payload.get("input") or {}
+    return (payload.get("kind") == "instance()/nocache() returned the cached object, not a fresh one"
+            and i.get("fac") == L.FGET and i.get("resolves_through") == "tzstr")
+
+
+MATCHERS = {"m_cache_clear_identity": m_cache_clear_identity, "m_tzical_clone": m_tzical_clone,
+            "m_nocache_tzstr_not_fresh": m_nocache_tzstr_not_fresh}
 
 
 # --------------------------------------------------------------------------------------
@@ -110,6 +119,18 @@ GET_POOL = [("UTC",), ("GMT",), ("EST5EDT",), ("America/New_York",), ("Europe/Lo
 GET_POOL_NOPATH = [("UTC",), ("GMT",), ("UTC+3",), ("X1",), ("QQQ",), ("America/New_York",), ("",), ("5",),
                    ("Y2",), ("Z3",), ("W4",), ("V6",), ("UTC-3",), ("JST-9",), ("EST5",), ("CET-1CEST",)]
 
+# Which requests are VALID is decided here, from the documented API -- never by probing the
+# implementation under test: tzoffset(name, offset) with offset a number of seconds or a timedelta and any
+# name; tzstr(s[, posix_offset]) for a well-formed TZ string; gettz(name) for ANY str name (unknown names
+# give None, they do not raise).  Everything else listed here is invalid and must raise.
+INVALID = {L.FOFF: {("X", "junk")},
+           L.FSTR: {("5",), ("UTC+",), ("EST5EDT,4",)},
+           L.FGET: {(b"UTC",)}}
+# a valid-looking request that raises because of a defect recorded elsewhere: kept, not pruned
+EXPECTED_BY_FINDING = [("gettz", "xxx,1,2,3,4,5,6,7,8,9", "TypeError",
+                        "C08: a malformed TZ string makes tzstr raise TypeError instead of ValueError; "
+                        "GettzFunc.nocache only swallows ValueError")]
+
 _WORLDS = {}
 
 
@@ -127,9 +148,10 @@ class Ctx:
             w = L.World()
             w.cfg = cfg
             with TzPaths(w, cfg):
-                w.pool = {L.FOFF: [w.add_entry(L.FOFF, a) for a in OFF_POOL],
-                          L.FSTR: [w.add_entry(L.FSTR, a) for a in STR_POOL],
-                          L.FGET: [w.add_entry(L.FGET, a) for a in (GET_POOL if cfg == "paths" else GET_POOL_NOPATH)]}
+                w.pool = {L.FOFF: [w.add_entry(L.FOFF, a, a not in INVALID[L.FOFF]) for a in OFF_POOL],
+                          L.FSTR: [w.add_entry(L.FSTR, a, a not in INVALID[L.FSTR]) for a in STR_POOL],
+                          L.FGET: [w.add_entry(L.FGET, a, a not in INVALID[L.FGET])
+                                   for a in (GET_POOL if cfg == "paths" else GET_POOL_NOPATH)]}
             w.reset()
             self.worlds[cfg] = w
         return w
@@ -700,14 +722,28 @@ def probe_grid(full):
 
 
 def grid_answers(z, grid):
+    """utcoffset / dst / tzname / is_ambiguous / datetime_exists of every grid instant (both folds), and
+    fromutc (through astimezone of the same reading taken as UTC) for the instants well inside the
+    datetime range; an exception is recorded as a value and counted"""
+    from dateutil import tz
     out = []
+    UTC = tz.UTC
     for dt in grid:
+        mid = 1900 <= dt.year <= 2200
         for fold in (0, 1):
             d = dt.replace(tzinfo=z, fold=fold)
             try:
-                out.append((d.utcoffset(), d.dst(), d.tzname()))
+                a = [d.utcoffset(), d.dst(), d.tzname()]
+                if hasattr(z, "is_ambiguous"):
+                    a.append(z.is_ambiguous(dt))
+                if mid:
+                    a.append(tz.datetime_exists(dt, z))
+                    if fold == 0:
+                        loc = dt.replace(tzinfo=UTC).astimezone(z)
+                        a.append((loc.replace(tzinfo=None), loc.fold, loc.utcoffset()))
+                out.append(tuple(a))
             except Exception as ex:
-                out.append(("EXC", type(ex).__name__))
+                out.append(("EXC", type(ex).__name__, mid))
     return out
 
 
@@ -721,7 +757,7 @@ def clone_pool():
     def add(label, thunk):
         try:
             out.append((label, thunk()))
-        except Exception as ex:  # a variant this dateutil does not accept is simply absent
+        except Exception as ex:  # every variant listed here is valid by the documented API: flagged by the caller
             out.append((label + " [constructor raised %s]" % type(ex).__name__, None))
     add("tz.UTC", lambda: tz.UTC)
     add("tzutc()", lambda: tz.tzutc())
@@ -792,8 +828,12 @@ def clone_checks(chunk, nchunks, full):
     grid = probe_grid(full)
     pool, absent = clone_pool()
     stats = {"clone_zones": 0, "clone_variants_absent": absent if chunk == 0 else [],
-             "clone_grid_instants_x_folds": 2 * len(grid), "clones": 0, "clone_classes": {}}
+             "clone_grid_instants_x_folds": 2 * len(grid), "clones": 0, "clone_classes": {}, "probe_exceptions": 0}
     out = []
+    if chunk == 0:
+        for lab in absent:
+            out.append({"kind": "exception", "what": "a valid zone constructor raised",
+                        "input": {"zone": lab, "via": "constructor", "cls": "?"}})
     variants = [("copy", copy.copy), ("deepcopy", copy.deepcopy)]
     for proto in range(0, pickle.HIGHEST_PROTOCOL + 1):
         variants.append(("pickle%d" % proto, lambda x, p=proto: pickle.loads(pickle.dumps(x, p))))
@@ -810,11 +850,13 @@ def clone_checks(chunk, nchunks, full):
                 out.append({"kind": "copy/pickle raised", "input": inp, "exception": type(ex).__name__})
                 continue
             stats["clones"] += 1
-            if not (c == z and z == c) or (c != z) or (z != c):
+            equal = (c == z and z == c) and not (c != z) and not (z != c)
+            if not equal:
                 out.append({"kind": "copy/pickle of a zone is not equal to it", "input": inp})
-                continue
+                if cname != "_tzicalvtz":       # (F-C18-c: identity equality; its behaviour is still compared)
+                    continue
             try:
-                hz = hash(z)
+                hz = hash(z) if equal else None
             except TypeError:
                 hz = None
             if hz is not None:
@@ -825,6 +867,13 @@ def clone_checks(chunk, nchunks, full):
                     out.append({"kind": "copy/pickle of a hashable zone is unhashable", "input": inp})
             if base is None:
                 base = grid_answers(z, grid)
+                nexc = sum(1 for a in base if a and a[0] == "EXC" and a[2])
+                stats["probe_exceptions"] += nexc
+                if nexc and cname != "_tzicalvtz":
+                    k0 = next(i for i, a in enumerate(base) if a and a[0] == "EXC" and a[2])
+                    out.append({"kind": "exception", "what": "a zone raised when asked about an ordinary instant",
+                                "input": dict(inp, via="probe", instant=str(grid[k0 // 2]), fold=k0 % 2),
+                                "exception": base[k0][1]})
             got = grid_answers(c, grid)
             if got != base:
                 k = next(i for i in range(len(base)) if base[i] != got[i])
@@ -1072,11 +1121,111 @@ def kind_checks(verdict, o, stats):
     stats["gettz_kind_histogram"] = {str(k): v for k, v in sorted(hist.items())}
 
 
+def arithmetic_and_fresh_checks(verdict, stats):
+    """(a) "aware datetimes built from equal requests use same-zone arithmetic": two factory calls with
+    equal arguments give ONE tzinfo object, so the difference of two aware datetimes is wall-clock
+    arithmetic (CPython: same tzinfo object -> naive subtraction), also across a DST transition, whereas
+    equal-but-distinct zones (instance()/nocache products) subtract in UTC;
+    (b) the "equal" half of "nocache / instance return fresh equal objects": for every valid pool request
+    the fresh product is a different object, == the factory product both ways, and answers alike."""
+    from dateutil import tz
+    w = CTX.world("paths")
+    w.reset()
+    d1, d2 = datetime(2021, 3, 14, 1, 30), datetime(2021, 3, 14, 3, 30)     # across the US spring-forward
+    n = 0
+    for label, mk, fresh in [("tzstr('EST5EDT')", lambda: tz.tzstr("EST5EDT"), lambda: tz.tzstr.instance("EST5EDT")),
+                             ("tzstr('EST5EDT,M3.2.0,M11.1.0')", lambda: tz.tzstr("EST5EDT,M3.2.0,M11.1.0"),
+                              lambda: tz.tzstr.instance("EST5EDT,M3.2.0,M11.1.0")),
+                             ("gettz('America/New_York')", lambda: tz.gettz("America/New_York"),
+                              lambda: tz.gettz.nocache("America/New_York")),
+                             ("gettz('EST5EDT')", lambda: tz.gettz("EST5EDT"), lambda: tz.gettz.nocache("EST5EDT")),
+                             ("tzoffset('A', 3600)", lambda: tz.tzoffset("A", 3600), lambda: tz.tzoffset.instance("A", 3600)),
+                             ("tzutc()", lambda: tz.tzutc(), None)]:
+        z1, z2 = mk(), mk()
+        if z1 is None:
+            continue
+        n += 1
+        inp = {"request": label}
+        if z1 is not z2:
+            verdict.violation({"kind": "same-zone arithmetic: equal requests returned different objects", "input": inp})
+            continue
+        wall = d2.replace(tzinfo=z2) - d1.replace(tzinfo=z1)
+        if wall != d2 - d1:
+            verdict.violation({"kind": "same-zone arithmetic: difference of two datetimes of one zone is not "
+                                       "wall-clock arithmetic", "input": inp, "got": str(wall), "want": str(d2 - d1)})
+        if fresh is not None:
+            f1 = fresh()
+            utc = d2.replace(tzinfo=f1) - d1.replace(tzinfo=z1)
+            want = (d2 - f1.utcoffset(d2)) - (d1 - z1.utcoffset(d1))
+            if utc != want:
+                verdict.violation({"kind": "inter-zone arithmetic between equal but distinct zones is not UTC "
+                                           "arithmetic", "input": inp, "got": str(utc), "want": str(want)})
+    stats["same_zone_arithmetic_requests"] = n
+    # (b) fresh equal objects
+    m = bad = 0
+    for f in (L.FOFF, L.FSTR, L.FGET):
+        for e in w.pool[f]:
+            ent = w.entries[e]
+            if not ent["valid"] or not cacheable(w, e):
+                continue
+            args = ent["args"]
+            try:
+                made = (tz.tzoffset(*args) if f == L.FOFF else tz.tzstr(*args) if f == L.FSTR else tz.gettz(*args))
+                fresh = (tz.tzoffset.instance(*args) if f == L.FOFF else tz.tzstr.instance(*args) if f == L.FSTR
+                         else tz.gettz.nocache(*args))
+            except Exception as ex:
+                verdict.violation({"kind": "exception", "what": "a valid request raised",
+                                   "input": {"fac": f, "args": repr(args)}, "exception": type(ex).__name__})
+                continue
+            m += 1
+            inp = {"fac": f, "args": repr(args)}
+            static = ent["kind"][0] == L.K_STATIC
+            inp["resolves_through"] = {L.K_TZSTR: "tzstr", L.K_STATIC: "permanent object", L.K_FRESH: "constructor"}.get(
+                ent["kind"][0], "other")
+            if fresh is made and not static:
+                bad += 1
+                verdict.violation({"kind": "instance()/nocache() returned the cached object, not a fresh one", "input": inp})
+            elif not (fresh == made and made == fresh) or fresh != made:
+                bad += 1
+                verdict.violation({"kind": "instance()/nocache() product is not equal to the factory product", "input": inp})
+            elif L.zone_answers(fresh) != L.zone_answers(made):
+                bad += 1
+                verdict.violation({"kind": "instance()/nocache() product answers differently from the factory product",
+                                   "input": inp})
+    w.reset()
+    stats["fresh_equal_requests"] = m
+    stats["fresh_equal_failures"] = bad
+    # (c) requests that raise because of a defect recorded for another property: run, not pruned
+    known = {}
+    for api, name, exc, why in EXPECTED_BY_FINDING:
+        try:
+            tz.gettz(name)
+            outcome = "returned"
+        except Exception as ex:
+            outcome = type(ex).__name__
+        fid = None
+        try:
+            kf = json.load(open(os.path.join(C.VERIF, "known_findings.json")))
+            for fnd in kf.get("findings", []):
+                if fnd.get("property") == "C08" and "TypeError" in fnd.get("what", ""):
+                    fid = fnd["id"]
+        except Exception:
+            pass
+        known["gettz(%r)" % name] = {"outcome": outcome, "expected_by": fid or "C08 finding (being recorded by the posix "
+                                     "builder: malformed TZ string -> TypeError, not ValueError)", "why": why}
+        if outcome not in (exc, "returned", "ValueError"):
+            verdict.violation({"kind": "exception", "what": "gettz raised an unexpected exception class",
+                               "input": {"name": name}, "exception": outcome})
+    tz.gettz.cache_clear()
+    stats["expected_by_finding_of_another_property"] = known
+
+
 def glue_checks(verdict, o):
     from dateutil import tz
     stats = {"zones": 0, "eq_pairs": 0, "eq_true": 0, "classes": {}}
     fixed_checks(verdict, o, stats)
     kind_checks(verdict, o, stats)
+    arithmetic_and_fresh_checks(verdict, stats)
     zs = zone_pool()
     stats["zones"] = len(zs)
     names = {"UTC": 1, "GMT": 2}
@@ -1206,7 +1355,7 @@ def main():
     # <= 1-pre-emption schedule (+ a few second pre-emptions); thorough: all fourteen in full
     sc_list = [0, 1, 2, 3, 4, 6] if quick else list(range(nsc))
     sc_full = {0, 1, 2, 3, 4} if quick else set(range(nsc))
-    a_max = 12 if quick else 30
+    a_max = 22 if quick else 30
     for sc in sc_list:
         for first in (0, 1):
             for a in range(0, a_max):
@@ -1220,6 +1369,16 @@ def main():
     clone_tasks = [("clone", c, n_clone_chunks, not quick) for c in range(n_clone_chunks)]
     tasks = clone_tasks + tasks      # (the heaviest tasks first)
 
+    env_warnings = []
+    validity = []
+    for cfg in ("paths", "nopaths"):
+        wv = CTX.world(cfg)
+        validity += [dict(v, config=cfg) for v in wv.validity_problems]
+    wp = CTX.world("paths")
+    n_file = sum(1 for e in wp.pool[L.FGET] if wp.entries[e]["kind"][0] == L.K_FRESH)
+    if n_file < 10:
+        env_warnings.append("only %d gettz pool names resolve to zone files: the system tz database seems to be "
+                            "missing, the gettz race scenarios degenerate to uncached returns" % n_file)
     table_violation = None
     try:
         table_ok = True
@@ -1234,7 +1393,7 @@ def main():
     results = []
     reg_path = os.path.join(C.VERIF, "corpus", "regressions", "C18.jsonl")
     n_reg = 0
-    if table_ok and os.path.exists(reg_path):
+    if os.path.exists(reg_path):
         for i, line in enumerate(open(reg_path)):
             line = line.strip()
             if not line or line.startswith("#"):
@@ -1273,6 +1432,15 @@ def main():
     pending = []          # (concrete?, payload): submitted concrete first (only 5 replays are printed)
     if table_violation is not None:
         pending.append((False, table_violation))
+    for v in validity:
+        if v["what"] == "a valid request raised":
+            pending.append((True, {"kind": "exception", "what": "a request that is valid by the documented API raised "
+                                   "(validity is decided by the check's static table, not by the implementation)",
+                                   "input": v}))
+        else:
+            pending.append((False, {"kind": "exception-missing", "what": v["what"], "input": v}))
+    for wtxt in env_warnings:
+        pending.append((False, {"kind": "environment: " + wtxt, "input": None}))
 
     class _Collect:
         @staticmethod
@@ -1280,7 +1448,7 @@ def main():
             pending.append((concrete, payload))
     real_verdict, verdict = verdict, _Collect
     clone_stats = {"clone_zones": 0, "clones": 0, "clone_classes": {}, "clone_variants_absent": [],
-                   "clone_grid_instants_x_folds": 0}
+                   "clone_grid_instants_x_folds": 0, "probe_exceptions": 0}
     clone_payloads = []
     for r in results:
         kind = r["task"][0]
@@ -1292,6 +1460,7 @@ def main():
             clone_payloads += r["clone_payloads"]
             clone_stats["clone_zones"] += st["clone_zones"]
             clone_stats["clones"] += st["clones"]
+            clone_stats["probe_exceptions"] += st.get("probe_exceptions", 0)
             clone_stats["clone_variants_absent"] += st["clone_variants_absent"]
             clone_stats["clone_grid_instants_x_folds"] = st["clone_grid_instants_x_folds"]
             for k, v in st["clone_classes"].items():
@@ -1388,7 +1557,32 @@ def main():
                         "random_3_4_threads": stats["random"], "fresh_singleton_subclass": stats["utcfresh"],
                         "scheduling_points": stats["steps"], "blocked_grants": stats["blocked_steps"]},
         "exhaustive": False,
-        "small_scope": "2 threads, 1-2 operations each, every schedule with <= 2 pre-emptions, %d scenarios" % len(sc_list),
+        "small_scope": (
+            "2 threads, 1-2 operations each; a schedule = thread A runs a steps, B runs b steps, A finishes, B "
+            "finishes (<= 2 pre-emptions), both choices of A. quick: a in 0..%d only (bodies have 13-26 scheduling "
+            "points, so pre-emption points late in long bodies -- e.g. after step %d of the ~21-step gettz->tzstr "
+            "body -- are NOT enumerated), every b for scenarios %s and b in {0,1,2,all} for the others; "
+            "thorough: a in 0..29 and every b for all %d scenarios, i.e. complete for the listed scenarios"
+            % (a_max - 1, a_max - 1, sorted(sc_full & set(sc_list)), nsc)) if quick else (
+            "2 threads, 1-2 operations each; every schedule 'A runs a steps, B runs b steps, A finishes, B finishes' "
+            "(<= 2 pre-emptions; a in 0..29 covers every body, every b), both choices of A, all %d scenarios" % nsc),
+        "tie_only_theorems": ["C18_gen_ne", "C18_gen_unhashable", "C18_gen_cfg", "C18_gen_fixed_tzoffset",
+                              "C18_gen_fixed_tzutc", "C18_gen_fixed_init", "C18_gen_fixed_enfold",
+                              "C18_gen_fixed_bridge_tzoffset", "C18_gen_fixed_bridge_tzutc"],
+        "tie_only_note": "these nine are reflexivity / definitional equalities between a regenerated one-liner and "
+                         "the hand model: their content is the fail-closed translator's acceptance test, not a proof "
+                         "effort; the six C18_gen_fixed_* concern C04/C05 (fixed-offset zones) rather than C18",
+        "restrictions": [
+            "identity ('gettz with the same name returns that very object') is claimed only for names gettz caches: "
+            "a name that resolves to tzlocal() or to no zone (None), and gettz() without a name, are returned uncached "
+            "by design and carry no identity claim (model: EUncached, not an observation of the spec)",
+            "identity and 'never two live objects per key' hold per cache epoch: across gettz.cache_clear() identity "
+            "is lost (finding F-C18-a, C18_retention_cache_clear_refuted)"],
+        "assumptions_in_theorems": [
+            "C18_eq_zones_equal_offsets: for tzrange/tzstr, tzfile and tzical zones utcoffset is taken to depend only "
+            "on the attributes __eq__ compares (true by typing of the statement); for tzfile this is the tzfile area's "
+            "C06_gen_eq_zones_behave_same, for tzrange/tzstr it is assumed and exercised by the == table x probe grid"],
+        "environment_warnings": env_warnings,
         "sequential": {"histories": stats["sequential"], "operations": stats["sequential_ops"],
                        "histories_with_more_than_8_keys": stats["histories_exceeding_lru"],
                        "calls_returning_a_still_held_object": stats["returns_hit"],
